@@ -675,4 +675,86 @@ theorem C16_last_admin_refused (n : Net) (y : Nat) (u : String) (b : Node) (w : 
     simp [hadm, hone] at hlast
 
 
+/-! ### a password change ends every session of the user -/
+
+theorem noSession_of_shr {a1 a : Node} (h : a1.Shr a) (cid : Nat) (h1 : a1.hasSession cid = false) : a.hasSession cid = false := by
+  cases h2 : a.hasSession cid with
+  | false => rfl
+  | true =>
+    have := (hasSession_iff a cid).mp h2
+    have := (hasSession_iff a1 cid).mpr ((h.rem.map _).subset this)
+    rw [this] at h1; cases h1
+
+theorem dropSession_noSession (a : Node) (cid : Nat) : (a.dropSession cid).hasSession cid = false := by
+  unfold Node.dropSession Node.hasSession
+  simp only [List.any_eq_false, List.mem_filter, bne_iff_ne, ne_eq, beq_iff_eq, and_imp]
+  intro s _ h; exact h
+
+theorem forceLogout_noSession (m : Net) (y cid : Nat) (a : Node) (ha : (forceLogout m y cid).node y = some a) :
+    a.hasSession cid = false := by
+  unfold forceLogout at ha
+  simp only [node_upd, if_true] at ha
+  cases h : (disconnect m.fuel m y cid).node y with
+  | none => rw [h] at ha; cases ha
+  | some a0 => rw [h] at ha; simp only [Option.map_some, Option.some.injEq] at ha; subst ha; exact dropSession_noSession a0 cid
+
+theorem foldl_forceLogout_noSession (ids : List Nat) (m : Net) (y : Nat) :
+    ∀ cid ∈ ids, ∀ a, (ids.foldl (fun m cid => forceLogout m y cid) m).node y = some a → a.hasSession cid = false := by
+  induction ids generalizing m with
+  | nil => intro cid h; cases h
+  | cons c t ih =>
+    intro cid hc a ha
+    simp only [List.foldl_cons] at ha
+    rcases List.mem_cons.mp hc with rfl | hc
+    · have hshr := shr_foldl (fun m cid => forceLogout m y cid) (fun m cid => shr_forceLogout m y cid) t (forceLogout m y cid)
+      obtain ⟨a1, ha1, h1⟩ := hshr.back ha
+      exact noSession_of_shr h1 cid (forceLogout_noSession m y cid a1 ha1)
+    · exact ih _ cid hc a ha
+
+/-- **C16, password change.** After a successful `change_password` for user `u` on node `y`, node `y` holds no remote session
+and no local session of `u` — whatever the number of sessions and whatever the state of the session-manager service.
+(On the unrepaired code only the first session ended: DESIGN F-27; and none while the service was stopped.) -/
+theorem C16_password_change_ends_sessions (n : Net) (y : Nat) (u old new : String)
+    (h : (step n (.changePassword y u old new)).2 = .success) (a : Node)
+    (ha : (step n (.changePassword y u old new)).1.node y = some a) :
+    (∀ s ∈ a.rem, s.user ≠ u) ∧ (∀ l, a.loc = some l → l.user ≠ u) := by
+  simp only [step] at h ha
+  rcases opChangePassword_cases n y u old new with ⟨_, h0⟩ | ⟨nd, w, hnd, _, _, _, _, h0, _⟩
+  · exact (h0 h).elim
+  · rw [h0] at ha
+    unfold logoutUser at ha
+    have hn1 : (n.upd y (Node.setPassword u new)).node y = some (nd.setPassword u new) := by simp [hnd]
+    simp only [hn1] at ha
+    -- the network after the forced remote logouts
+    generalize hm : List.foldl (fun m cid => forceLogout m y cid) (n.upd y (Node.setPassword u new))
+      (List.map (fun x => x.id) (List.filter (fun s => s.user == u) (nd.setPassword u new).rem)) = m at ha
+    have hshr : (n.upd y (Node.setPassword u new)).Shr m := by
+      rw [← hm]; exact shr_foldl _ (fun m cid => shr_forceLogout m y cid) _ _
+    obtain ⟨a1, ha1, h1⟩ := hshr.node y _ hn1
+    simp only [node_upd, if_true, ha1, Option.map_some, Option.some.injEq] at ha
+    subst ha
+    constructor
+    · intro s hs hu
+      have hs1 : s ∈ a1.rem := by
+        unfold Node.endLocalOf at hs
+        split at hs
+        · split at hs <;> exact hs
+        · exact hs
+      have hs0 : s ∈ (nd.setPassword u new).rem := h1.rem.subset hs1
+      have hid : s.id ∈ List.map (fun x => x.id) (List.filter (fun s => s.user == u) (nd.setPassword u new).rem) :=
+        List.mem_map_of_mem (List.mem_filter.mpr ⟨hs0, by simpa using hu⟩)
+      have := foldl_forceLogout_noSession _ (n.upd y (Node.setPassword u new)) y s.id hid a1 (by rw [hm]; exact ha1)
+      rw [(hasSession_iff a1 s.id).mpr (List.mem_map_of_mem hs1)] at this
+      cases this
+    · intro l hl
+      unfold Node.endLocalOf at hl
+      split at hl
+      · rename_i l' hl'
+        split at hl
+        · simp [Node.clearLoc] at hl
+        · rename_i hne
+          rw [hl'] at hl; cases hl; simpa using hne
+      · rename_i hnone; rw [hnone] at hl; cases hl
+
+
 end Primaite.Session
